@@ -364,7 +364,8 @@ def observe(P, fr):
                 frames_after_exit=after_exit, status_n=status_n)
 
 
-def raw_client(dm, kind, blob, rng, expect_out_len=None, io_timeout=120.0, hold=0.05, barrier=None):
+def raw_client(dm, kind, blob, rng, expect_out_len=None, io_timeout=45.0, hold=0.05, barrier=None):
+    # io_timeout: a session on an idle machine takes milliseconds; 45 s without a byte is "never"
     """Play one client behaviour of Vmd.tla (Request(kind) + the scripted disconnect) over a raw socket."""
     P = dm.P
     EX = P["VMD_MSG_LOAD_EXEC"]
